@@ -152,6 +152,16 @@ def check_enum(ctx, rule, crate, enum_path, reader_names, scope, direction_kinds
             ctx.violate(rule, f"{key0}|{rn}|shape", f"{enum_path}::{rn}: no `match opcode` found", fn["file"], fn["line"])
             continue
         scrut = H.local_name(H.strip_refs(m[1]))
+        sc = H.strip_refs(m[1])
+        if H.tag(sc) == "cast":
+            # the opcode must be matched at its full wire width (C04): a narrowing cast aliases undefined opcodes onto defined ones
+            from .intconv import INT_TYPES, int_range
+            if sc[2] in INT_TYPES and sc[3] in INT_TYPES:
+                a, b = int_range(sc[2]), int_range(sc[3])
+                if not (b[0] <= a[0] and a[1] <= b[1]):
+                    ctx.violate("opc.unknown-arm", f"{key0}|{rn}|narrowed", f"{enum_path}::{rn}: the {sc[2]} opcode is narrowed to {sc[3]} before it is matched: every undefined opcode that equals a defined one modulo 2^{INT_TYPES[sc[3]][0]} "
+                                f"is decoded as that message instead of being rejected", fn["file"], fn["line"])
+            scrut = H.local_name(H.strip_refs(sc[4]))
         table = {}
         catch = False
         for pat, guard, abody in m[3]:
